@@ -14,8 +14,18 @@ from visions.types.date_time import DateTime
 @Date.register_relationship(DateTime, pd.Series)
 @series_handle_nulls
 def datetime_is_date(series: pd.Series, state: dict) -> bool:
-    # compare at the resolution of the data: `.dt.time` has microsecond resolution and hides nanoseconds
-    return bool((series.dt.normalize() == series).all())
+    # compare the wall-clock components at the resolution of the data: `.dt.time` has microsecond
+    # resolution and hides nanoseconds (and `.dt.normalize()` raises where local midnight does not exist)
+    dt = series.dt
+    return bool(
+        (
+            (dt.hour == 0)
+            & (dt.minute == 0)
+            & (dt.second == 0)
+            & (dt.microsecond == 0)
+            & (dt.nanosecond == 0)
+        ).all()
+    )
 
 
 @Date.register_transformer(DateTime, pd.Series)
